@@ -878,6 +878,15 @@ impl<'a> Walk<'a> {
                     ir::TypeLayer::Array(inner, _) => inner,
                     ir::TypeLayer::Vector(st, _) => st,
                     ir::TypeLayer::Matrix(st, _, y) => reg.register_type(ir::TypeLayer::Vector(st, y)),
+                    ir::TypeLayer::Object(o) => {
+                        use ir::ObjectType::*;
+                        match o {
+                            Buffer(t) | RWBuffer(t) | StructuredBuffer(t) | RWStructuredBuffer(t) | Texture2D(t) | RWTexture2D(t)
+                            | Texture2DMipsSlice(t) | Texture2DArray(t) | RWTexture2DArray(t) | Texture2DArrayMipsSlice(t) | Texture3D(t)
+                            | RWTexture3D(t) | Texture3DMipsSlice(t) => t,
+                            _ => return None,
+                        }
+                    }
                     _ => return None,
                 }
             }
@@ -923,6 +932,10 @@ impl<'a> Walk<'a> {
             ir::Expression::Variable(_) | ir::Expression::Global(_) | ir::Expression::MemberVariable(..) | ir::Expression::ConstantVariable(_) => {
                 let c = own_const(self, e);
                 let arr = matches!(self.decl_ty(e).map(|t| reg.get_type_layer(reg.remove_modifier(t))), Some(ir::TypeLayer::Array(..)));
+                // the members of a constant buffer are read-only whatever their declared type says
+                if matches!(e, ir::Expression::ConstantVariable(_)) {
+                    return (true, true, format!("cbuffer{}:c", if arr { "[a]" } else { "" }));
+                }
                 let base = if matches!(e, ir::Expression::Variable(_)) { "var" } else { "global" };
                 (true, c, format!("{}{}{}", base, if arr { "[a]" } else { "" }, mark(c)))
             }
@@ -940,8 +953,18 @@ impl<'a> Walk<'a> {
                     _ => "?",
                 };
                 if kind == "?" {
-                    // buffers / textures: outside this oracle (the object decides)
-                    return (true, false, format!("{}>idx[?]", p));
+                    // buffers / textures: the object decides — RW resources are written through, the others are read-only
+                    use ir::ObjectType::*;
+                    return match self.decl_ty(a).map(|t| reg.get_type_layer(reg.remove_modifier(t))) {
+                        Some(ir::TypeLayer::Object(RWBuffer(_) | RWStructuredBuffer(_) | RWTexture2D(_) | RWTexture2DArray(_) | RWTexture3D(_))) => {
+                            (true, false, format!("{}>idx[rw]", p))
+                        }
+                        Some(ir::TypeLayer::Object(
+                            Buffer(_) | StructuredBuffer(_) | Texture2D(_) | Texture2DMipsSlice(_) | Texture2DArray(_) | Texture2DArrayMipsSlice(_)
+                            | Texture3D(_) | Texture3DMipsSlice(_),
+                        )) => (true, true, format!("{}>idx[ro]:c", p)),
+                        _ => (true, false, format!("{}>idx[?]", p)),
+                    };
                 }
                 let oc = own_const(self, e);
                 (l, c || oc, format!("{}>idx[{}]{}", p, kind, mark(oc)))
@@ -1293,8 +1316,31 @@ impl<'a> Walk<'a> {
                 }
             }
             ir::Initializer::Aggregate(v) => {
-                for x in v {
-                    self.init(x, None);
+                // an aggregate has one item per component, each initialising exactly that component
+                let reg = &self.module.type_registry;
+                let comps: Option<Vec<ir::TypeId>> = required.and_then(|r| match reg.get_type_layer(reg.remove_modifier(r)) {
+                    ir::TypeLayer::Vector(st, n) => Some(vec![st; n as usize]),
+                    ir::TypeLayer::Array(inner, Some(n)) => Some(vec![inner; n as usize]),
+                    ir::TypeLayer::Struct(id) => self.module.struct_registry.get(id.0 as usize).map(|sd| sd.members.iter().map(|m| m.type_id).collect()),
+                    _ => None,
+                });
+                match comps {
+                    Some(c) => {
+                        if c.len() != v.len() {
+                            self.errors.push(format!("aggregate initialiser with {} items for {} components", v.len(), c.len()));
+                        }
+                        for (x, t) in v.iter().zip(c.iter()) {
+                            self.init(x, Some(*t));
+                        }
+                    }
+                    None => {
+                        if let Some(r) = required {
+                            self.errors.push(format!("aggregate initialiser for {}", self.show(r)));
+                        }
+                        for x in v {
+                            self.init(x, None);
+                        }
+                    }
                 }
             }
         }
